@@ -321,10 +321,8 @@ fn handle_xgroup_create(storage: &Arc<StorageEngine>, db: usize, parts: &[RespFr
     
     // Parse start ID
     let start_id = if id_str == "$" {
-        // Use the last entry's ID or 0-0 if empty
-        stream.last_entry()
-            .map(|e| e.id)
-            .unwrap_or(StreamId::new(0, 0))
+        // Use the stream's last ID (0-0 for a new stream)
+        stream.last_id()
     } else if id_str == "0" || id_str == "0-0" {
         StreamId::new(0, 0)
     } else {
